@@ -26,6 +26,32 @@ def _merge_blocks(rng, blocks, B, ndims, mode):
             lo = tuple(b[d] * B for d in range(ndims))
             boxes.append((lo, tuple(lo[d] + B - 1 for d in range(ndims))))
         return boxes
+    if mode == "rect":
+        # large rectangles: maximal runs along axis 0, then equal runs of adjacent rows (axis 1) stacked; such boxes
+        # lie across the faces of the boxes of the coarser level and overhang them by more than their own size
+        rows = {}
+        for b in blocks:
+            rows.setdefault(tuple(b[1:]), []).append(b[0])
+        runs = {}
+        for key, xs in rows.items():
+            xs = sorted(xs); i = 0
+            while i < len(xs):
+                j = i
+                while j + 1 < len(xs) and xs[j + 1] == xs[j] + 1:
+                    j += 1
+                runs.setdefault((xs[i], xs[j]) + tuple(key[1:]), []).append(key[0] if key else 0)
+                i = j + 1
+        for rk in sorted(runs):
+            ys = sorted(runs[rk]); i = 0
+            while i < len(ys):
+                j = i
+                while j + 1 < len(ys) and ys[j + 1] == ys[j] + 1 and ndims >= 2:
+                    j += 1
+                lo = [rk[0] * B] + ([ys[i] * B] if ndims >= 2 else []) + [c * B for c in rk[2:]]
+                hi = [(rk[1] + 1) * B - 1] + ([(ys[j] + 1) * B - 1] if ndims >= 2 else []) + [(c + 1) * B - 1 for c in rk[2:]]
+                boxes.append((tuple(lo), tuple(hi)))
+                i = j + 1
+        return boxes
     ax = mode  # merge along this axis
     rows = {}
     for b in blocks:
@@ -81,7 +107,7 @@ def random_mesh(rng, ndims, nlev, B=None, nblk=None, refine_p=0.4, single0=None)
         if l == 0 and (single0 if single0 is not None else rng.random() < 0.25):
             boxes = [(tuple(0 for _ in range(ndims)), tuple(g - 1 for g in grid0))]
         else:
-            mode = rng.choice(["block"] + list(range(ndims)) * 2)
+            mode = rng.choice(["block", "rect"] + list(range(ndims)) * 2)
             boxes = _merge_blocks(rng, cov[l], B, ndims, mode)
         rng.shuffle(boxes)
         levels.append([[list(lo), list(hi)] for lo, hi in boxes])
@@ -134,6 +160,14 @@ def random_fields(rng, nf=None, profile=None, repeats=False):
         out.append(f"f{len(out)}")
     if repeats and nf >= 2:
         out[rng.randrange(1, nf)] = out[0]
+        if nf >= 3 and rng.random() < 0.6:
+            # the numbered form of the repeated name written literally, before or after the repetition
+            # (the first free `name_k` must be searched, a per-name counter collides)
+            k = rng.choice([i for i in range(1, nf) if out[i] != out[0]] or [1])
+            out[k] = out[0] + "_2"
+            if nf >= 4 and rng.random() < 0.5:
+                j = rng.choice([i for i in range(1, nf) if i != k])
+                out[j] = out[0]
     return out
 
 
@@ -196,7 +230,24 @@ def affine_coeffs(spec, k):
 
 
 def box_data(spec, lv, bid, k):
-    """payload of field k of box bid at level lv, shape (nx, ny[, nz])"""
+    """payload of field k of box bid at level lv, shape (nx, ny[, nz]); with data.covered_fill in {"nan", "inf", "mix"} the
+    cells lying under a box of the next level hold non-finite filler (their values must never be used when that level is selected)"""
+    out = _box_data(spec, lv, bid, k)
+    fill = spec["data"].get("covered_fill")
+    if fill and lv + 1 < len(spec["levels"]):
+        lo, hi = spec["levels"][lv][bid]
+        nd = spec["ndims"]
+        out = np.array(out, dtype="float64")
+        for j, (flo, fhi) in enumerate(spec["levels"][lv + 1]):
+            clo = [max(lo[d], flo[d] // 2) for d in range(nd)]
+            chi = [min(hi[d], fhi[d] // 2) for d in range(nd)]
+            if all(clo[d] <= chi[d] for d in range(nd)):
+                v = {"nan": np.nan, "inf": np.inf, "mix": [np.nan, np.inf, -np.inf][(j + k + bid) % 3]}[fill]
+                out[tuple(slice(clo[d] - lo[d], chi[d] - lo[d] + 1) for d in range(nd))] = v
+    return out
+
+
+def _box_data(spec, lv, bid, k):
     lo, hi = spec["levels"][lv][bid]
     nd = spec["ndims"]
     shape = [hi[d] - lo[d] + 1 for d in range(nd)]
@@ -314,8 +365,10 @@ def materialize(spec, path, nlev=None):
             lst.sort()
             fname = f"Cell_D_{fno:05d}"
             with open(os.path.join(ldir, fname), "wb") as bf:
-                for _, bid in lst:
+                for n_in_file, (_, bid) in enumerate(lst):
                     lo, hi = boxes[bid]
+                    if n_in_file and spec.get("gap"):
+                        bf.seek(int(spec["gap"]), 1)      # sparse hole: byte offsets beyond 2**31 at no cost on disk
                     offsets[bid] = bf.tell(); fnames[bid] = fname
                     bf.write(fab_header(lo, hi, nf))
                     arrs = [np.asarray(box_data(spec, lv, bid, k), dtype="float64") for k in range(nf)]
